@@ -87,6 +87,9 @@ class Check(FormulaCheck):
     def arg(self, rnd, tag):
         k = rnd.random()
         s = rnd.choice([1, -1])
+        if rnd.random() < 0.05:
+            # whole numbers beyond 2**53 that are NOT doubles, handed over as the ints they are (a long literal, a host's int)
+            return s * rnd.choice([2 ** 53 + 1, 12345678901234567, 10 ** 17 + 3, 3 ** 40 + 2, rnd.randint(2 ** 53, 10 ** 24) | 1, 10 ** 22 + 7])
         if rnd.random() < 0.12:
             # 'over many magnitudes': all of them, from the subnormals to the largest doubles
             return s * 10 ** rnd.uniform(-320, 308)
@@ -133,6 +136,11 @@ class Check(FormulaCheck):
         g = self.ev('%s(v_x)' % fn, v_x=v)
         rec.nt((fn, repr(v)))
         X = mpf(x)
+        if isinstance(x, int) and not isinstance(x, bool) and abs(x) > 2 ** 53 and fn in ('SIN', 'COS', 'TAN', 'COT', 'SEC', 'CSC'):
+            # a periodic function of a whole number that no double holds: the argument is rounded before anything is computed, and
+            # the function is not continuous enough for that to be 'floating-point rounding' of the result
+            rec.count('skipped.periodic-function-of-an-integer-beyond-2**53')
+            return
         if fn in ('TAN', 'COT'):
             # distance to the nearest pole
             pole = m.pi / 2 if fn == 'TAN' else 0
